@@ -8,16 +8,19 @@ import evalstream as es
 
 PID = "C04"
 MANIFEST = {
-    "text": "6 Coq theorems on the capture and call mechanisms of the evaluator model (capture by value of every "
-            "referenced bound name and nothing else; lookup order parameters > self/inputs > captured > caller; "
-            "positional binding with null optionals and list rest; arity classes of the documented shape; binding "
-            "never indexes past the arguments for ANY parameter list once arity passed).  PARTIAL: the consequence "
-            "'same result from every call site' is kept as a stated Prop and decided by the context-grammar search on "
-            "the implementation (every closure x every calling context x argument tuples) together with the EVAL "
-            "correspondence of the same programs against the model",
+    "text": "8 Coq theorems over the evaluator model: CALL-SITE INDEPENDENCE — FunctionDef::call of a hereditarily "
+            "closed function (free names = parameters, captured names or its own name; likewise for every captured "
+            "function) on closed arguments returns the same outcome and store from every scope chain with the same "
+            "`inputs`, at every call depth (simulation over all expression forms, operators and the callback-taking "
+            "built-ins included), and its result is closed again; plus the mechanisms: capture by value of every "
+            "referenced bound name and nothing else, lookup order, positional binding, arity classes of the documented "
+            "shape, binding never indexes past the arguments for ANY parameter list.  Tied to the code by the EVAL "
+            "correspondence on the context-grammar programs; the law itself re-checked on the implementation",
     "note": "trusted: Coq kernel + vm_compute; transcription of collect_free_variables / Expr::Lambda / "
-            "FunctionDef::call (validated by correspondence on the context programs); call-site independence itself "
-            "is explored, not proved",
+            "FunctionDef::call / evaluate_ast (validated by correspondence); built-ins outside the transcribed set are "
+            "Unmodelled in the theorem's evaluator; exclusions of the theorem = open findings F8 (self name before "
+            "captured value is part of the stated lookup order) and F32 (assignment expressions in function bodies); "
+            "no axioms",
     "design_ref": "DESIGN.md section 6 C04",
 }
 
